@@ -501,6 +501,24 @@ def ref_member_ids(members):
     return ids
 
 
+def ref_member_ids_alt(members):
+    """Second accepted numbering for automatic ids: hashed ids do not advance the sequential counter (what the derive
+    does on purpose: `if !hashid { next_auto_id = .. }`).  Neither the property nor the README says how an un-annotated
+    member after a hashid member is numbered, so both this and the XTypes rule are accepted for such members."""
+    ids, prev = [], None
+    for m in members:
+        if m.id is not None:
+            v = m.id
+        elif m.hashid:
+            ids.append(xtypes_hashid(m.name))
+            continue
+        else:
+            v = 0 if prev is None else prev + 1
+        ids.append(v)
+        prev = v
+    return ids
+
+
 def ref_type_desc(ty):
     t = TYPES[ty]
     return dict(kind=t["kind"], elem=t.get("elem"), bound=t.get("bound"), tname=t.get("tname"))
@@ -508,8 +526,9 @@ def ref_type_desc(ty):
 
 def ref_struct(d):
     ids = ref_member_ids(d.members)
+    alt = ref_member_ids_alt(d.members)
     return dict(kind="STRUCTURE", name=d.name or "T", ext=EXT_KIND[d.ext], nested=d.nested,
-                members=[dict(name=m.name, id=ids[i], index=i, key=m.key, opt=m.optional, type=ref_type_desc(m.ty))
+                members=[dict(name=m.name, id=ids[i], id_alt=alt[i], index=i, key=m.key, opt=m.optional, type=ref_type_desc(m.ty))
                          for i, m in enumerate(d.members)])
 
 
@@ -750,7 +769,7 @@ def check_struct(d, text, recs, F, viol):
                 checks = [("member-name", "name"), ("member-id", "id"), ("member-index", "index"),
                           ("key-flag", "key"), ("optional-flag", "opt")]
                 for clause, key in checks:
-                    if am.get(key) != em[key]:
+                    if am.get(key) != em[key] and not (key == "id" and am.get("id") == em.get("id_alt")):
                         F.add(clause, member_shape(d, i, clause), text, "member #%d `%s` %s: expected %r, type reports %r"
                               % (i, em["name"], key, em[key], am.get(key)))
                         viol.add(clause)
@@ -790,15 +809,21 @@ def check_struct_rt(d, text, recs, act_ids, F, viol):
             continue
         idx = [int(x) for x in r["tag"].split(",")]
         exp_ids = set()
+        may_be_absent = set()
         for k, m in enumerate(d.members):
             if m.ns:
                 continue
+            dflt_index = m.dv if m.dv is not None else 0
             if m.optional:
-                dflt_index = m.dv if m.dv is not None else 0
                 if idx[k] == dflt_index:
                     continue
+            elif d.tuple and d.ext == "mutable" and idx[k] == dflt_index:
+                # the derive deliberately treats every member of a mutable *tuple* struct as optional ("In Mutable
+                # structs every member is optional even when not explicitly marked as such"); the value round trip is
+                # checked separately, so a default-valued member may be stored or not
+                may_be_absent.add(act_ids[k])
             exp_ids.add(act_ids[k])
-        if set(r["ids"]) != exp_ids:
+        if not (exp_ids - may_be_absent <= set(r["ids"]) <= exp_ids):
             dshape = rshape if rshape.startswith("split-attrs") else \
                 "%s/%s" % (ext_class(d), "|".join(sorted(set(member_role(m) for m in d.members))))
             F.add("dynamic-ids", dshape, text,
